@@ -26,7 +26,7 @@ RULE = (
 )
 ASSUMPTIONS = [
     "a module file may be deleted while files still import it: those files are re-executed, fail at the import and stay unloaded until the module is back (the error reports themselves are C18's subject)",
-    "an app never imports a different app as a module; mtimes set by the harness increase strictly",
+    "an app never imports a different app as a module; mtimes set by the harness are all distinct (4 in 10 touches move a file's mtime backwards)",
     "a module that stays loaded after its last importer stopped importing it is left loaded (the code never unloads unchanged modules); the model does the same and this is reported in evidence as orphan_module_contexts",
 ]
 MODS = ["m1", "m1x", "m2", "p1"]  # m1x: a module whose name merely starts with another module's name
@@ -425,9 +425,11 @@ def run_case(case):
                 if commented(rel):
                     continue
                 tree.mtime += 10
-                tree.files[rel]["mtime"] = tree.mtime
-                os.utime(os.path.join(w.pydir, rel), (tree.mtime, tree.mtime))
-                op = f"touch {rel}"
+                # a modification time may also go backwards (restored backup, git checkout): any change counts
+                new_mtime = tree.mtime if rng.random() < 0.6 else 1_600_000_000.0 + (tree.mtime - 1_700_000_000.0)
+                tree.files[rel]["mtime"] = new_mtime
+                os.utime(os.path.join(w.pydir, rel), (new_mtime, new_mtime))
+                op = f"touch {rel}" + (" (older mtime)" if new_mtime < tree.mtime else "")
             elif k < 0.50:
                 cand = [r for r in ["x.py", "y.py", "z.py", "scripts/s1.py", "scripts/sub/s2.py", "scripts/s3.py", "apps/a1.py"] if r not in tree.files]
                 cand += [f"modules/{m}.py" for m in ("m1", "m2") if f"modules/{m}.py" not in tree.files and f"modules/{m}/__init__.py" not in tree.files]
